@@ -73,6 +73,57 @@ pub struct Plan {
     pub keys: Vec<KeyPlan>,
 }
 
+/// traversal-order uses of count variables: (name, is_count_use)
+fn count_uses(p: &[RPiece], out: &mut Vec<(String, &'static str, bool)>) {
+    for x in p {
+        match x {
+            RPiece::Var { name, .. } => out.push((name.clone(), "", false)),
+            RPiece::Comp { name, children } => {
+                out.push((format!("<{name}>"), "", false));
+                count_uses(children, out)
+            }
+            RPiece::Range(r) => {
+                // does an arm show the count / capture anything else
+                let mut inner = vec![];
+                for (_, b) in &r.branches {
+                    count_uses(b, &mut inner);
+                }
+                let shows_count = inner.iter().any(|(n, _, _)| n == &r.count_var);
+                out.push((r.count_var.clone(), if r.ty.is_float() { "float-range" } else { "integer-range" }, !shows_count && !inner.is_empty()));
+            }
+            RPiece::Plural(pl) => {
+                let mut inner = vec![];
+                for b in pl.forms.values() {
+                    count_uses(b, &mut inner);
+                }
+                let shows_count = inner.iter().any(|(n, _, _)| n == &pl.count_var);
+                out.push((pl.count_var.clone(), "plural", !shows_count && !inner.is_empty()));
+            }
+            _ => {}
+        }
+    }
+}
+
+/// classes shared by every generated-crate property: how count variables are reused inside one value
+pub fn count_reuse_classes(k: &KeyPlan) -> Vec<String> {
+    let mut c = vec![];
+    for (_, r) in &k.per_locale {
+        let mut uses = vec![];
+        count_uses(r, &mut uses);
+        for (i, (name, kind, hidden)) in uses.iter().enumerate() {
+            if !kind.is_empty() && uses[i + 1..].iter().any(|(n, _, _)| n == name) {
+                c.push(format!("count-variable-used-again-after-its-{kind}"));
+                if *hidden {
+                    c.push(format!("count-reused-after-{kind}-whose-arms-capture-others-but-not-the-count"));
+                }
+            }
+        }
+    }
+    c.sort();
+    c.dedup();
+    c
+}
+
 fn has_formatter(p: &[RPiece]) -> bool {
     p.iter().any(|x| match x {
         RPiece::Var { fmt, .. } => fmt.is_some(),
